@@ -957,13 +957,28 @@ def m_iter_all_any(eng, st, call):
     return out
 
 
-def _key_bv(eng, st, v):
+def _key_parts(eng, st, v):
+    """sort key as a list of unsigned bit-vectors (scalars, newtypes such as Timestamp / EventId, tuples of those: lexicographic)"""
     v = deref_all(eng, st, v)
     if z3.is_bv(v):
-        return v
-    if isinstance(v, Agg) and len(v.fields) == 1 and z3.is_bv(v.fields[0]):
-        return v.fields[0]
-    raise MirError(f'min/max_by_key: key {vrepr(v)} is not an unsigned scalar')
+        return [v]
+    if isinstance(v, Agg) and v.kind == 'tuple':
+        out = []
+        for f in v.fields:
+            out += _key_parts(eng, st, f)
+        return out
+    if isinstance(v, Agg) and len(v.fields) == 1:
+        return _key_parts(eng, st, v.fields[0])
+    raise MirError(f'min/max_by_key: key {vrepr(v)} is not an unsigned scalar or a tuple of them')
+
+
+def _lex_lt(a, b):
+    """a < b lexicographically (unsigned)"""
+    cl, eq = [], []
+    for x, y in zip(a, b):
+        cl.append(z3.And(*eq, z3.ULT(x, y)) if eq else z3.ULT(x, y))
+        eq.append(x == y)
+    return z3.Or(cl) if cl else z3.BoolVal(False)
 
 
 def m_iter_min_max_by_key(eng, st, call):
@@ -981,18 +996,47 @@ def m_iter_min_max_by_key(eng, st, call):
             nxt = []
             for s, keys in states:
                 for s2, r in call_closure(eng, s, clo, [Ref(s.temp(x), ())]):
-                    nxt.append((s2, keys + [_key_bv(eng, s2, r)]))
+                    nxt.append((s2, keys + [_key_parts(eng, s2, r)]))
             states = nxt
         for s, keys in states:
+            lt = lambda i, j: _lex_lt(keys[i], keys[j])
+            le = lambda i, j: z3.Not(_lex_lt(keys[j], keys[i]))
             for i, x in enumerate(items):
                 if name == 'min_by_key':
-                    cond = z3.And([z3.ULT(keys[i], keys[j]) for j in range(i)] + [z3.ULE(keys[i], keys[j]) for j in range(i + 1, len(items))])
+                    cond = z3.And([lt(i, j) for j in range(i)] + [le(i, j) for j in range(i + 1, len(items))])
                 else:
-                    cond = z3.And([z3.UGE(keys[i], keys[j]) for j in range(i)] + [z3.UGT(keys[i], keys[j]) for j in range(i + 1, len(items))])
+                    cond = z3.And([le(j, i) for j in range(i)] + [lt(j, i) for j in range(i + 1, len(items))])
                 if eng.feasible(s, cond):
                     s2 = s.clone()
                     eng.assume(s2, cond)
                     out.append((s2, SOME(x)))
+    return out
+
+
+def m_iter_min_max_by(eng, st, call):
+    """Iterator::max_by / min_by with a comparator closure: std's fold -- max_by keeps the later element unless the earlier compares Greater,
+    min_by keeps the earlier element unless it compares Greater"""
+    name = method_name(call.fn)
+    clo = call.args[1]
+    out = []
+    for s0, it in _iter_value(eng, st, call.args[0]):
+        items = it.items[it.pos:]
+        if not items:
+            out.append((s0, NONE())); continue
+        states = [(s0, items[0])]
+        for y in items[1:]:
+            nxt = []
+            for s, x in states:
+                for s2, r in call_closure(eng, s, clo, [Ref(s.temp(x), ()), Ref(s.temp(y), ())]):
+                    o = ordering_val(r)
+                    for s3, gt in bool_cases(eng, s2, o == 1):
+                        if name == 'max_by':
+                            nxt.append((s3, x if gt else y))
+                        else:
+                            nxt.append((s3, y if gt else x))
+            states = nxt
+        for s, x in states:
+            out.append((s, SOME(x)))
     return out
 
 
@@ -1266,6 +1310,7 @@ def map_insert(eng, st, m, k, v):
 STD_MODELS += [
     (R(r' as (std::iter::)?Iterator>::(filter|map|filter_map)::<'), m_iter_filter),
     (R(r' as (std::iter::)?Iterator>::(min_by_key|max_by_key)(::<.*>)?$'), m_iter_min_max_by_key),
+    (R(r' as (std::iter::)?Iterator>::(min_by|max_by)(::<.*>)?$'), m_iter_min_max_by),
     (R(r' as (std::iter::)?Iterator>::(enumerate|rev|cloned|copied|count|skip|take|last)(::<.*>)?$'), m_iter_simple),
     (R(r' as (std::iter::)?Iterator>::collect::<'), m_iter_simple),
 ]
